@@ -506,13 +506,14 @@ static void run_load(const Scn &s) {
     case 3: cert = pki("srv_rsa.pem"); key = pki("ca_rsa.pem"); ca = pki("ca_rsa.pem"); expect_fail = true; break;        // private key file holds a certificate
     case 7: expect_fail = true; break;
     case 4: cert = pki("srv_rsa.pem"); key = pki("srv_rsa.key"); ca = pki("ca_rsa.key"); expect_fail = true; break;       // CA file is not a certificate
+    case 9: cert = pki("srv_ec.pem"); key = pki("@srv_ec_p8.key"); ca = pki("ca_all.pem"); partner = K_CLI_NOID_EC; hsS.suite = 0xC02B; break;   // EC identity whose private key file is PKCS#8
     case 8: ca = pki("ca_rsa.pem") + ";" + pki("@ca_rich_ext.pem"); server = false; partner = K_SRV_RSA; hsS.suite = 0x009C; break;   // trust store with a CA whose extensions use every GeneralName kind (otherName, URI, dirName, IPv6...), issuerAltName, nameConstraints, policies, CRL DP, AIA
     default: break;
     }
     // opts == NULL is the common usage (key type auto-detected); the BAD variants and the ticket-key-delete variants name the key type
-    matrixSslLoadKeysOpts_t lo; memset(&lo, 0, sizeof lo); lo.key_type = (s.sub == 1) ? PS_ECC : PS_RSA;
-    matrixSslLoadKeysOpts_t *lop = (expect_fail || s.order || s.sub == 7) ? &lo : NULL;
-    if (s.sub <= 4 || s.sub == 8) {
+    matrixSslLoadKeysOpts_t lo; memset(&lo, 0, sizeof lo); lo.key_type = (s.sub == 1 || s.sub == 9) ? PS_ECC : PS_RSA;
+    matrixSslLoadKeysOpts_t *lop = (expect_fail || s.order || s.sub == 7 || s.sub == 9) ? &lo : NULL;
+    if (s.sub <= 4 || s.sub == 8 || s.sub == 9) {
         if (s.sub == 0) hsS.suite = s.order ? 0x002F : 0x009C;   // cheap usability handshakes (RSA key transport)
         rc = API(matrixSslLoadKeys(k, cert.empty() ? NULL : cert.c_str(), key.empty() ? NULL : key.c_str(), NULL, ca.empty() ? NULL : ca.c_str(), lop));
         outcome("LoadKeys=%d;", rc);
@@ -788,7 +789,8 @@ static void build_scenarios() {
     }
     // (appended later: load sub 8)
     { Scn s; s.kind = SC_LOAD; s.sub = 8; s.ver = TLS12; s.suite = 0; s.ckey = s.skey = 0; s.hs = H_FULL; s.cred = GOOD; s.data = false; s.order = 0; s.exts = false; s.pmtu = 0; s.gck = s.gsk = -1; s.group = 0;
-      s.name = "load/client-trust-store-rich-extensions"; g_scn.push_back(s); }
+      s.name = "load/client-trust-store-rich-extensions"; g_scn.push_back(s);
+      for (int o = 0; o < 2; o++) { s.sub = 9; s.order = o; s.name = fmt("load/ec-identity-pkcs8-key%s", o ? "+key-type-named" : ""); g_scn.push_back(s); } }
 }
 
 // ------------------------------------------------------------------------------------------------ child
